@@ -2,20 +2,27 @@ pub mod c01;
 pub mod c02;
 pub mod c03;
 pub mod c04;
+pub mod c05;
 pub mod c06;
 pub mod c07;
 pub mod c08;
+pub mod c09;
 pub mod c10;
 pub mod c11;
 pub mod c12;
 pub mod c13;
 pub mod c14;
+pub mod c15;
+pub mod c16;
 pub mod c17;
+pub mod c18;
+pub mod c19;
+pub mod c20;
 
 use crate::util::Oracle;
 
 pub fn oracle_by_name(name: &str) -> Option<Oracle> {
-	let all: &[&[(&str, Oracle)]] = &[c01::ORACLES, c02::ORACLES, c04::ORACLES, c06::ORACLES, c07::ORACLES, c08::ORACLES, c10::ORACLES, c11::ORACLES, c14::ORACLES, c17::ORACLES];
+	let all: &[&[(&str, Oracle)]] = &[c01::ORACLES, c02::ORACLES, c04::ORACLES, c05::ORACLES, c06::ORACLES, c07::ORACLES, c08::ORACLES, c09::ORACLES, c10::ORACLES, c11::ORACLES, c14::ORACLES, c15::ORACLES, c16::ORACLES, c17::ORACLES, c18::ORACLES, c19::ORACLES, c20::ORACLES];
 	for set in all {
 		for (n, f) in set.iter() {
 			if *n == name {
@@ -33,11 +40,18 @@ pub fn run(prop: &str) -> bool {
 		"C03" => c03::run(),
 		"C04" => c04::run(),
 		"C14" => c14::run(),
+		"C05" => c05::run(),
 		"C06" => c06::run(),
 		"C07" => c07::run(),
 		"C08" => c08::run(),
 		"C17" => c17::run(),
+		"C09" => c09::run(),
 		"C10" => c10::run(),
+		"C15" => c15::run(),
+		"C16" => c16::run(),
+		"C18" => c18::run(),
+		"C19" => c19::run(),
+		"C20" => c20::run(),
 		"C11" => c11::run(),
 		"C12" => c12::run(),
 		"C13" => c13::run(),
